@@ -899,9 +899,13 @@ func c06cache(c *an.Ctx) {
 // c06unwrap: a variable's value reaches every access "through any interfaces in between": either
 // Runtime.resolve unwraps what it reads from the scope chain (indirectEface at every such return), or —
 // if it does not — every store into a scope's variables during execution stores an unwrapped value.
-func c06unwrap(c *an.Ctx) {
+func c06unwrap(c *an.Ctx) { unwrapRule(c, "C06.same") }
+
+// unwrapRule (C06.same, C05.truth): a template variable is the value itself, not the interface it may have
+// been stored in — truthiness ({{if x}} for a wrapped 0), indexing and conversions all look at the value.
+func unwrapRule(c *an.Ctx, rule string) {
 	p := c.P
-	f := c.Fn("C06.same", "(*Runtime).resolve")
+	f := c.Fn(rule, "(*Runtime).resolve")
 	if f == nil {
 		return
 	}
@@ -944,9 +948,9 @@ func c06unwrap(c *an.Ctx) {
 		}
 		return true
 	})
-	c.Expect("C06.same", "returns of resolve that yield a looked-up variable", nRead, 2)
+	c.Expect(rule, "returns of resolve that yield a looked-up variable", nRead, 2)
 	if nRaw == 0 {
-		c.OK("C06.same", "(*Runtime).resolve/unwraps", f.Pos(), "every looked-up variable is unwrapped (indirectEface) before it is used (%d returns)", nRead)
+		c.OK(rule, "(*Runtime).resolve/unwraps", f.Pos(), "every looked-up variable is unwrapped (indirectEface) before it is used (%d returns)", nRead)
 		return
 	}
 	// resolve hands out raw values: then every store must unwrap
@@ -975,9 +979,9 @@ func c06unwrap(c *an.Ctx) {
 		})
 	}
 	if len(raw) == 0 {
-		c.OK("C06.same", "(*Runtime).resolve/unwraps", f.Pos(), "resolve returns stored values as they are, and every store into a scope unwraps the value first")
+		c.OK(rule, "(*Runtime).resolve/unwraps", f.Pos(), "resolve returns stored values as they are, and every store into a scope unwraps the value first")
 	} else {
-		c.Bad("C06.same", "(*Runtime).resolve/unwraps", f.Pos(), raw, "resolve returns variables without unwrapping interface values, and %d store(s) into a scope keep the value wrapped: indexing, slicing or using such a variable as an index fails although the value behind the interface supports it", len(raw))
+		c.Bad(rule, "(*Runtime).resolve/unwraps", f.Pos(), raw, "resolve returns variables without unwrapping interface values, and %d store(s) into a scope keep the value wrapped: indexing, slicing or using such a variable as an index fails although the value behind the interface supports it", len(raw))
 	}
 }
 
